@@ -174,7 +174,7 @@ fn gen_expr(r: &mut Rng, item: &MVal, root: &MVal, cfg: &GenCfg, depth: usize, a
         // exists() evaluates a full path, which may itself end in a filter
         let mut steps = steps;
         if depth < 2 && r.chance(1, 4) {
-            let p = MPath { steps: steps.clone(), predicate: None };
+            let p = MPath { steps: steps.clone(), predicate: None, rootless: false };
             let reached = model::select(base, &p, 0);
             let inner_item = reached.first().cloned().unwrap_or(MVal::Null);
             steps.push(Step::Filter(gen_expr(r, &inner_item, root, cfg, depth + 1, true)));
@@ -183,7 +183,7 @@ fn gen_expr(r: &mut Rng, item: &MVal, root: &MVal, cfg: &GenCfg, depth: usize, a
     }
     // literal: prefer a scalar actually reachable so that the comparison can succeed
     let reached: Vec<MVal> = {
-        let p = MPath { steps: steps.clone(), predicate: None };
+        let p = MPath { steps: steps.clone(), predicate: None, rootless: false };
         model::select(base, &p, 0).into_iter().filter(|v| v.is_scalar()).collect()
     };
     let lit = if !reached.is_empty() && r.chance(2, 3) { r.pick(&reached).clone() } else { gen_lit(r, base, cfg) };
@@ -228,14 +228,14 @@ pub fn gen_path(r: &mut Rng, doc: &MVal, cfg: &GenCfg, filters: bool) -> MPath {
     // for the library and the model alike; keep filters to documents where that is cheap
     let filters = filters && doc.node_count() <= 2000;
     if filters && r.chance(1, 12) {
-        return MPath { steps: vec![], predicate: Some(gen_expr(r, doc, doc, cfg, 0, false)) };
+        return MPath { steps: vec![], predicate: Some(gen_expr(r, doc, doc, cfg, 0, false)), rootless: false };
     }
     let mut steps: Vec<Step> = vec![];
     // deep documents get paths that can follow them down
     let nsteps = if doc.depth() > 8 && r.chance(1, 2) { r.urange(4, 14) } else { r.urange(0, 4) };
     for _ in 0..nsteps {
         // representative item: the first item selected so far
-        let sofar = MPath { steps: steps.clone(), predicate: None };
+        let sofar = MPath { steps: steps.clone(), predicate: None, rootless: false };
         let items = model::select(doc, &sofar, 0);
         let rep = items.first().cloned().unwrap_or(MVal::Null);
         let step = match &rep {
@@ -267,7 +267,9 @@ pub fn gen_path(r: &mut Rng, doc: &MVal, cfg: &GenCfg, filters: bool) -> MPath {
         };
         steps.push(step);
     }
-    MPath { steps, predicate: None }
+    // one path in eight is handed over the way the parser builds `a.b` / `[0].a`: without the leading `$` element
+    let rootless = r.chance(1, 8);
+    MPath { steps, predicate: None, rootless }
 }
 
 pub struct OpGenCfg<'a> {
